@@ -11,7 +11,7 @@ RULE = ("seeded scenes: random rooted tree skeletons (2-6 nodes, shuffled listin
         "input scale {1,0.5,0.75} x (cms stride, paf stride) in {1,2,4,8}^2 x refinement {None, integral} x batch 1-4 x max_stride {16,32} x provider {LabelsReader, VideoReader}; every 5th LabelsReader run reads a two-video project whose first frame comes from a tiny empty video (one inference model, batches of different size); every 7th scene is a crowded 3x3 / 3x2 grid of compact animals (17-36 peaks per frame). "
         "non-trivial = frame with >= 2 animals or an animal with a missing node; distinct by the configuration tuple + skeleton")
 ASSUMPTIONS = ["well-separated premise enforced by the generator: animal centres >= 2.6 body sizes apart, nodes of an animal >= 2.5 confidence-map cells apart (in network-input pixels)",
-               "the oracle network's PAF width is chosen from the two strides (sigma = max(1.5*paf_stride, 3) input px) - the network is free to be ideal, the claim is about the decoder",
+               "the oracle network's PAF width is chosen from the two strides (sigma = max(1.5*paf_stride, 3, 0.9*cms_stride) input px: at least as wide as the quantisation of the peaks) - the network is free to be ideal, the claim is about the decoder",
                "tolerance per axis: (0.5*cms_stride + a)/(input_scale*eff_scale) original px with a = 0.35 + the explicit integer-size rounding of the resizing steps (vf/e2e.py:tol); RGB pipeline"]
 SHARDS = {"quick": 8, "thorough": 16}
 N = {"quick": 280, "thorough": 54000}
@@ -53,7 +53,7 @@ def gen_case(ctx, i):
     session = bool(i % 5 == 1)
     return {"i": i, "session": session, "H": H, "W": W, "max_hw": max_hw, "scale": scale, "cms_stride": cms, "paf_stride": paf, "n_nodes": n_nodes, "edges": rand_tree(r, n_nodes),
             "n_animals": int(r.integers(1, 6)), "missing_p": float(r.choice([0.0, 0.2, 0.35])), "refinement": [None, "integral"][int(r.integers(0, 2))], "batch": 1 if (session and mode == "none") else int(r.integers(1, 5)),
-            "max_stride": int(r.choice([16, 32])), "n_frames": int(r.integers(2, 4)), "seed": int(r.integers(0, 2 ** 31))}
+            "max_stride": int(r.choice([16, 32])), "n_frames": int(r.integers(2, 4)), "seed": int(r.integers(0, 2 ** 31)), "margin": float(r.choice([20.0, 20.0, 5.0]))}
 
 
 def directed(ctx):
@@ -76,6 +76,7 @@ def make_scene(case, name):
     body = max(16.0, spacing * (0.8 + 0.35 * n))
     poses = {}
     grid = []
+    m_ = float(case.get("margin", 20.0))  # distance kept between keypoints and the image border
     if case.get("crowd"):  # centres on a regular grid, 1.6 body diameters apart: bounding boxes never touch
         gy, gx = case["crowd"]
         body = spacing * (0.8 + 0.35 * n) * 0.85
@@ -93,7 +94,7 @@ def make_scene(case, name):
                 if grid:
                     c, ok = grid[a], True
                     break
-                c = np.array([r.uniform(20 + body, W - 21 - body), r.uniform(20 + body, H - 21 - body)]) if (W > 2 * body + 42 and H > 2 * body + 42) else None
+                c = np.array([r.uniform(m_ + body, W - 1 - m_ - body), r.uniform(m_ + body, H - 1 - m_ - body)]) if (W > 2 * body + 2 * m_ + 2 and H > 2 * body + 2 * m_ + 2) else None
                 if c is None:
                     break
                 if all(np.hypot(*(c - q)) >= 2.7 * 2 * body for q in centres):
@@ -162,7 +163,7 @@ def check(ctx, case):
     max_hw = tuple(case["max_hw"])
     eff = e2e.eff_scale_for(case["H"], case["W"], max_hw)
     tol = e2e.tol(case["cms_stride"], case["H"], case["W"], max_hw, case["scale"])
-    paf_sigma = max(1.5 * case["paf_stride"], 3.0)
+    paf_sigma = max(1.5 * case["paf_stride"], 3.0, 0.9 * case["cms_stride"])  # wide enough for peaks quantised to the confidence-map grid (up to 0.71 cms cells off the segment)
     edges = [tuple(e) for e in case["edges"]]
     nt = False
     inconclusive = False
